@@ -473,10 +473,8 @@ func (c *SCIONClient) measureClockOffsetSCION(ctx context.Context, mtrcs *scionC
 							c.Auth.buf,
 							c.Auth.mac,
 						)
-						if err != nil {
-							panic(err)
-						}
-						authenticated = subtle.ConstantTimeCompare(scion.PacketAuthOptMAC(authOpt), c.Auth.mac) != 0
+						authenticated = err == nil &&
+							subtle.ConstantTimeCompare(scion.PacketAuthOptMAC(authOpt), c.Auth.mac) != 0
 						if !authenticated {
 							err = errInvalidPacketAuthenticator
 							if numRetries != maxNumRetries && deadlineIsSet && timebase.Now().Before(deadline) {
